@@ -25,3 +25,14 @@ func VerifPublish(ctx context.Context, bundle *Bundle, entriesPerFile uint, sele
 func VerifPublishMetadata(ctx context.Context, bundle *Bundle, publish bool, entriesPerFile uint) error {
 	return implPublishMetadata(ctx, bundle, publish, entriesPerFile)
 }
+
+// VerifIndexEntriesPerFile, when > 0, is the number of entries per index file written by file indexes created
+// afterwards (split uploads), so that index-file boundaries of splits can be crossed with a handful of files.
+var VerifIndexEntriesPerFile int
+
+func indexEntriesPerFile(def int) int {
+	if VerifIndexEntriesPerFile > 0 {
+		return VerifIndexEntriesPerFile
+	}
+	return def
+}
